@@ -280,7 +280,14 @@ pub fn establish_customer(ctx: &mut Ctx, w: &World, hidden: &Agreed) -> Option<E
     if !ctx.forced_next.is_empty() { let f = std::mem::take(&mut ctx.forced_next); rng.force_scalars(&f); }
     let _ = verif_hooks::drain_challenges();
     let (mbal, cbal) = (MerchantBalance::try_new(hidden.mb).ok()?, CustomerBalance::try_new(hidden.cb).ok()?);
-    let (requested, proof) = customer::Requested::new(&mut rng, &w.customer, hidden.cid, mbal, cbal, &hidden.context());
+    let context = hidden.context();
+    let (requested, proof) = match std::panic::catch_unwind(std::panic::AssertUnwindSafe(|| customer::Requested::new(&mut rng, &w.customer, hidden.cid, mbal, cbal, &context))) {
+        Ok(x) => x,
+        Err(_) => {
+            ctx.violation("the customer's Requested::new panics", json!({"class": "customer-establish-panics", "cb": hidden.cb, "mb": hidden.mb, "scalar_draws": rng.scalars_in_log().iter().map(hex_s).collect::<Vec<_>>()}));
+            return None;
+        }
+    };
     let rec = verif_hooks::drain_challenges();
     if rec.len() != 1 {
         ctx.broken(&format!("Requested::new derived {} challenges, expected 1", rec.len()));
